@@ -113,6 +113,7 @@ def check_send_data(ctx, cls, func):
         has_break = any(isinstance(n, ast.Break) for n in walk_no_nested(loop) if _enclosing_loops(fn, n)[:1] == [loop] and len(_enclosing_loops(fn, n)) == 1)
         ctx.require(not has_break, f"{q}: send loop uses break - exit idiom not in the table")
         test = loop.test
+        ctx.require(not (isinstance(test, ast.Constant) and test.value), f"{q}: the send loop is `while {norm(test)}` and ends from its body - exit idiom not in the table")
         dep = rules.expr_depends_on(test, tainted)
         ctx.ob("C10.P1", q, dep,
                "the retry loop's exit depends on the count returned by socket.send" if dep else
@@ -548,7 +549,7 @@ def check_linger(ctx):
     ctx.ob("C10.P6", "TcpConnection cone", True, f"{n} setsockopt sites inspected for an abortive-close configuration", key="sites", where="secsgem/common", sites=n)
 
 
-def run(ctx):
+def check_all_send_data(ctx):
     repo = ctx.repo
     # send_data implementations in class cones that put the socket into non-blocking mode
     n_impl = 0
@@ -566,10 +567,14 @@ def run(ctx):
             check_send_data(ctx, cls, cls.methods["send_data"])
             n_impl += 1
     ctx.floor("socket send_data implementations", n_impl, 1)
+
+
+def run(ctx):
+    check_all_send_data(ctx)
     check_helper(ctx)
     from .. import refmodels
 
-    refmodels.guarded(ctx, "C10.P3", ["HsmsProtocol._process_send_queue"], check_process_send_queue)
+    check_process_send_queue(ctx)
     refmodels.guarded(ctx, "C10.P4", ["Protocol.send_message"], check_send_message)
     check_block_send_info(ctx)
     check_linger(ctx)
